@@ -377,12 +377,16 @@ fn real_world(cfg: &RunCfg, rep: &mut Report) {
 pub fn run(cfg: &RunCfg) -> Report {
     let mut rep = Report::new(
         "C11",
-        "generated module sets (1..5 modules, 1..25 assignments each, IMPORTS of types and values between them incl. values whose types are not imported, COMPONENTS OF chains, several sources) compiled in the given order, reversed, and under k random permutations of assignments / modules / sources / regroupings (every permutation when a level has <= 5 units); each set also repeated, after other compilations, and on 2/7/16 concurrent threads; the real-world modules of rasn-compiler-tests/tests/modules compiled twice, concurrently, and in groups of 2..5 under permutations of source order and of module order inside one source. Oracle: bindings bytes and sorted warnings identical (rustfmt unavailable). Model tie: emitted sequence equals the skeleton's for the base and one permuted order",
+        "[plus: permitted alphabets of seven string kinds, a parameterized type with two object-set parameters and generated sets with information objects, with opaque_open_types on / off: 12 repetitions and 8 threads in the long-lived process against the result of a fresh child process] generated module sets (1..5 modules, 1..25 assignments each, IMPORTS of types and values between them incl. values whose types are not imported, COMPONENTS OF chains, several sources) compiled in the given order, reversed, and under k random permutations of assignments / modules / sources / regroupings (every permutation when a level has <= 5 units); each set also repeated, after other compilations, and on 2/7/16 concurrent threads; the real-world modules of rasn-compiler-tests/tests/modules compiled twice, concurrently, and in groups of 2..5 under permutations of source order and of module order inside one source. Oracle: bindings bytes and sorted warnings identical (rustfmt unavailable). Model tie: emitted sequence equals the skeleton's for the base and one permuted order",
     );
     if let Some(r) = &cfg.replay {
         let r = r.get("case").unwrap_or(r);
         if r["kind"].as_str().map(|k| k.starts_with("file")).unwrap_or(false) {
             replay_files(r, &mut rep);
+            return rep;
+        }
+        if let Some(l) = r["state_input"].as_str() {
+            process_state(cfg, &mut rep, Some((l, r["opaque_open_types"].as_bool().unwrap_or(true))));
             return rep;
         }
     }
@@ -490,8 +494,87 @@ pub fn run(cfg: &RunCfg) -> Report {
     }
     if cfg.replay.is_none() {
         real_world(cfg, &mut rep);
+        process_state(cfg, &mut rep, None);
     }
     rep
+}
+
+/// Notation whose treatment involves tables, caches or maps inside the compiler: permitted alphabets of every
+/// string kind with closed and open bounds, parameterized types with several object-set parameters, generated
+/// module sets with information objects — under the default configuration and with opaque_open_types off.
+fn state_sensitive_inputs(cfg: &RunCfg) -> Vec<(String, Vec<String>)> {
+    let mut out: Vec<(String, Vec<String>)> = Vec::new();
+    for kind in ["VisibleString", "IA5String", "BMPString", "UniversalString", "PrintableString", "NumericString", "UTF8String"] {
+        let (lo, hi) = if kind == "NumericString" { ("1", "8") } else { ("a", "z") };
+        out.push((
+            format!("alphabet:{kind}"),
+            vec![format!("Al-Mod DEFINITIONS AUTOMATIC TAGS ::= BEGIN\nA ::= {kind} (FROM (\"{lo}\"..\"{hi}\"))\nB ::= {kind} (FROM (MIN..\"{hi}\"))\nC ::= {kind} (FROM (\"{lo}\"..MAX))\nD ::= SEQUENCE {{ d {kind} (FROM (\"{lo}{hi}\")) (SIZE (1..4)) }}\nEND\n")],
+        ));
+    }
+    out.push((
+        "object-set-parameters".into(),
+        vec!["Pr-Mod DEFINITIONS AUTOMATIC TAGS ::= BEGIN\nEXT ::= CLASS { &id INTEGER UNIQUE, &Type } WITH SYNTAX { ID &id TYPE &Type }\nPair { EXT : SetA, EXT : SetB } ::= SEQUENCE {\n  idA EXT.&id ({SetA}),\n  valA EXT.&Type ({SetA}{@idA}),\n  idB EXT.&id ({SetB}),\n  valB EXT.&Type ({SetB}{@idB})\n}\nImpl ::= Pair { {SetB}, {Other} }\nImpl2 ::= Pair { {Other}, {SetB} }\nSetB EXT ::= { { ID 1 TYPE INTEGER } }\nOther EXT ::= { { ID 2 TYPE BOOLEAN } | { ID 3 TYPE NULL } }\nEND\n".into()],
+    ));
+    let mut rng = Rng::new(cfg.seed ^ 0x57A7E);
+    for k in 0..cfg.budget(6, 40) {
+        let mut g = Gen { rng: &mut rng, info_objects: true };
+        let m = g.module(&format!("St{k}"), &format!("{k}x9"), 4 + k % 12);
+        out.push((format!("generated-{k}"), vec![m.text()]));
+    }
+    out
+}
+
+/// The result in a long-lived process (after everything this run has compiled, repeatedly, and on threads) must
+/// be the result of a fresh process that has compiled nothing else.
+fn process_state(cfg: &RunCfg, rep: &mut Report, only: Option<(&str, bool)>) {
+    let probe = verif_root().join("harness/target/debug/probe");
+    let inputs = state_sensitive_inputs(cfg);
+    for (label, srcs) in &inputs {
+        for opaque in [true, false] {
+            if let Some((l, o)) = only {
+                if l != label || o != opaque {
+                    continue;
+                }
+            }
+            use std::io::Write;
+            let mut cmd = std::process::Command::new(&probe);
+            cmd.arg("--canon");
+            if !opaque {
+                cmd.arg("--no-opaque");
+            }
+            let child = cmd.stdin(std::process::Stdio::piped()).stdout(std::process::Stdio::piped()).stderr(std::process::Stdio::null()).spawn();
+            let fresh: Option<Canon> = child.ok().and_then(|mut ch| {
+                ch.stdin.take()?.write_all(srcs.join("\n----\n").as_bytes()).ok()?;
+                let o = ch.wait_with_output().ok()?;
+                let v: Value = serde_json::from_slice(&o.stdout).ok()?;
+                Some(Canon { generated: v["generated"].as_str()?.to_string(), warnings: v["warnings"].as_array()?.iter().filter_map(|w| w.as_str().map(String::from)).collect() })
+            });
+            let Some(fresh) = fresh else {
+                rep.harness_errors.push(format!("fresh-process baseline for {label} failed"));
+                continue;
+            };
+            rep.count("fresh-process-baseline");
+            let case = json!({"state_input": label, "opaque_open_types": opaque, "sources": srcs});
+            let mk = move || rasn_compiler::prelude::RasnConfig { opaque_open_types: opaque, ..Default::default() };
+            let mut results: Vec<(String, Canon)> = Vec::new();
+            for r in 0..12 {
+                results.push((format!("repetition {r} in the long-lived process"), canon(&compile_rasn_cfg(srcs, mk()))));
+            }
+            let handles: Vec<_> = (0..8).map(|_| { let s = srcs.clone(); std::thread::spawn(move || canon(&compile_rasn_cfg(&s, mk()))) }).collect();
+            for (t, h) in handles.into_iter().enumerate() {
+                if let Ok(c) = h.join() {
+                    results.push((format!("thread {t} of 8"), c));
+                }
+            }
+            for (what, c) in results {
+                rep.evaluations += 1;
+                if c != fresh {
+                    rep.unsat("", false, json!({"why": format!("{what}: differs from the result of a fresh process: {}", first_diff(&fresh, &c)), "case": case}));
+                    break;
+                }
+            }
+        }
+    }
 }
 
 fn replay_files(r: &Value, rep: &mut Report) {
